@@ -587,3 +587,27 @@ CHECKS["C21"]["note"] = (
     'tempfile names and uuid1/uuid4 virtualised per caller; one read call is atomic; codegen artefacts are not '
     'crash-enumerated; one model.'
 )
+
+CHECKS["C23"]["text"] = (
+    'For 1-D arrays of size 1..3 every subscript in [-1, n+2] (both sides of an equation), every slice lo:hi over '
+    'the window with a sized and a shape-agnostic consumer, every for-loop lo:hi over the window with x[i], x[i+1], '
+    'x[i-1]; for 2x2 / 2x3 matrices every (i,j), (i,:), (:,j) (thorough: A[i, lo:hi]); subscripts on scalars. '
+    'Loop-variable subscripts f(i): for every non-empty loop 0 <= lo <= hi <= n+2 every affine f = c0 + c1*i, c1 in '
+    '{-2,-1,1,2}, with the first evaluated index anywhere in [-1, n+2], and every (i-m)*(i-m)+c / c-(i-m)*(i-m) '
+    'with the vertex m in lo..hi and c in [-1, n+2] -- ascending, descending (x[n+1-i]), stepping over 0, extreme '
+    'in the middle of the sequence -- as b*i = x[f] and x[f] = b*i on x[n], n = 1..3 (thorough 1..4), as the row '
+    'and as the column subscript of A[2,3] and A[3,2] with the other subscript every valid constant (thorough: also '
+    '2x2, 3x3, both sides, A[f,:] / A[:,f] under sum), and with size, upper loop bound and subscript written '
+    "relative to an Integer parameter (Real x[n]; for i in lo:n+k; x[n+k'-i]). Stepped ranges x[lo:st:hi] and for i "
+    'in lo:st:hi, st in {1,2} (thorough 3), against the explicit element list. 12.9k programs quick, 67.9k '
+    'thorough. The reference decides in/out of range: in range must generate and select exactly those elements (3 '
+    'grid points, distinct element values), out of range must raise from generate() or residual construction.'
+)
+
+CHECKS["C23"]["note"] = (
+    'Arrays up to size 3 (thorough 4) and window +-2; empty ranges (hi < lo) are legal and not judged; a stepped '
+    'slice whose stop lies beyond n while its last element does not (x[1:2:4] of x[3]) may be rejected. The start '
+    'of a for range is a non-negative literal and a step a positive literal (pymoca reads both with .value: '
+    'anything else raises for every model); subscripts through an Integer array (x[k[i]]), if-expressions / div / '
+    'mod in a subscript, A[i,i], 3-D arrays and nested component arrays are not in the alphabet.'
+)
